@@ -353,6 +353,7 @@ func isIterable(src interface{}) bool {
  *
  */
 func valueFromAST(valueAST ast.Value, ttype Input, variables map[string]interface{}) interface{} {
+	verifStep(7)
 	if valueAST == nil {
 		return nil
 	}
